@@ -50,6 +50,20 @@ def opGb (kv : KV) : Option String := do
     | none => "error"
   pure s!"model={model} spec={spec}"
 
+def opFact (kv : KV) : Option String := do
+  let cols ← parseKeyCols (← get kv "keys")
+  let n ← parseNat (← get kv "n")
+  let keys := rowKeys cols n
+  let (codes, labels) := factorizeFirst keys
+  let labs := if labels.isEmpty then "-" else "|".intercalate (labels.map showKey)
+  pure s!"codes={showInts codes} labels={labs}"
+
+/-- `_monotonic_factorization` on a list of numbers (`_` = float NaN: every comparison false) -/
+def opMono (kv : KV) : Option String := do
+  let xs ← parseValList (← get kv "xs")
+  let (cut, codes, labels) := monotonicFactorization Val.lt Val.gt Val.isNan xs
+  pure s!"cutoff={cut} codes={showInts ((codes.take cut).map Int.ofNat)} labels={showVals labels}"
+
 def opScalar (kv : KV) : Option String := do
   let fn ← get kv "fn"
   let k ← parseKind (← get kv "kind")
@@ -69,6 +83,8 @@ def step (line : String) : String :=
       | "reduce" => opReduce kv
       | "scalar" => opScalar kv
       | "gb" => opGb kv
+      | "fact" => opFact kv
+      | "mono" => opMono kv
       | _ => none
     r.getD "bad-op"
 
